@@ -1,6 +1,7 @@
 package main
 
 import (
+	"strings"
 	"encoding/json"
 	"fmt"
 	"os"
@@ -56,6 +57,9 @@ func emitManifest() {
 				tech += ", "
 			}
 			tech += r
+		}
+		if p.Technique != "" {
+			tech = "static analysis: " + p.Technique + "; rules: " + strings.Join(p.Rules, ", ")
 		}
 		checks = append(checks, check{
 			PropertyID: id,
